@@ -107,8 +107,11 @@ pub fn Suspense(props: SuspenseProps) -> View {
                     let mut tx = Some(tx);
                     create_effect(move || {
                         if !suspense_scope.sent.get() && suspense_scope.parent.as_ref().map_or(true, |parent| parent.get().sent.get()) {
-                            suspense_scope.sent.set(true);
+                            // Wake this fragment before marking it as sent: setting `sent` runs the
+                            // effects of the child boundaries right away, and fragments are streamed
+                            // in the order in which they are woken.
                             tx.take().unwrap().send(()).unwrap();
+                            suspense_scope.sent.set(true);
                         }
                     });
                     rx.await.unwrap();
